@@ -77,12 +77,12 @@ def run(tier):
             # a hang must reproduce to count (one flaky alarm would discredit the rest)
             again = vlib.run_pool(["par"], [{k: v for k, v in j.items() if k != "idx"}], workers=1, job_timeout=180).get(j["id"], {})
             if again.get("status") == r.get("status"):
-                V.violation("stress:%s:reproduced" % r["status"], "%d OS threads: the VM %s (twice with the same programs): %s" % (len(j["threads"]), r["status"], r.get("msg", "")[-400:]), rep)
+                V.violation("stress:%s:reproduced%s" % (r["status"], ":gc-stress" if j["gc_stress"] else ""), "%d OS threads: the VM %s (twice with the same programs): %s" % (len(j["threads"]), r["status"], r.get("msg", "")[-400:]), rep)
             else:
                 V.divergence("%s in a stress round with %d threads did not reproduce" % (r["status"], len(j["threads"])))
             continue
         if r.get("dangling"):
-            V.violation("stress:dangling", "%d freed objects are reachable after the round" % r["dangling"], rep)
+            V.violation("stress:dangling%s" % (":gc-stress" if j["gc_stress"] else ""), "%d freed objects are reachable after the round" % r["dangling"], rep)
         counts = {}
         for t in r.get("ticks", []):
             counts[t] = counts.get(t, 0) + 1
